@@ -334,6 +334,20 @@ def evalApprox (op : String) (a : List Tok) (rhs : List Tok) : Option (Bool × S
       let sc := if i < 3 then sb else sa
       (x.isNaN && y.isNaN) || x == y || (x - y).abs ≤ 1e-11 * sc || (x.isInf && y.isInf && (x > 0) == (y > 0))
     some (ok, showList (m.map fToBits))
+  | "f_coeff32", [.int typ, .int sk, .int sv, .int fr, .int g, .int sh], [.list [r0, r1, r2, r3, r4, r5]] =>
+    -- `Filter::<f32>`: the same model over binary32
+    let v := f32OfBits sv
+    let shape : Shape Float32 := match sk with | 0 => .q v | 1 => .bandwidth v | _ => .slope v
+    let cfg : FilterCfg Float32 := ⟨f32OfBits fr, f32OfBits g, f32OfBits sh, shape⟩
+    let ((b0, b1, b2), (a0, a1, a2)) := cfg.build float32Ops typ.toNat
+    let m := [b0, b1, b2, a0, a1, a2].map Float32.toFloat
+    let e := [r0, r1, r2, r3, r4, r5].map fun x => (f32OfBits x).toFloat
+    let sb := (m.take 3).foldl (fun acc v => if v.abs > acc then v.abs else acc) 0
+    let sa := (m.drop 3).foldl (fun acc v => if v.abs > acc then v.abs else acc) 0
+    let ok := (List.zip m e).zipIdx.all fun ((x, y), i) =>
+      let sc := if i < 3 then sb else sa
+      (x.isNaN && y.isNaN) || x == y || (x - y).abs ≤ 2e-5 * sc || (x.isInf && y.isInf && (x > 0) == (y > 0))
+    some (ok, showList (m.map fToBits))
   | "f_from_ba", [.int w, .int q, .list [b0, b1, b2, a0, a1, a2]], [.list r] =>
     let ba : BA Float := ((fOfBits b0, fOfBits b1, fOfBits b2), (fOfBits a0, fOfBits a1, fOfBits a2))
     let (c0, c1, c2, c3, c4) := biquadFromBa floatOps (quantizeInt w.toNat q.toNat) ba
@@ -362,6 +376,37 @@ def evalApprox (op : String) (a : List Tok) (rhs : List Tok) : Option (Bool × S
       let ok := m.length == r.length && (List.zip m r).zipIdx.all fun ((x, y), i) =>
         if i ≥ 3 && nolim then x == y else (x - y).natAbs ≤ 3 + x.natAbs / 2 ^ 48
       some (ok, showList m)
+  | "f_pid32", [.int w, .int q, .int period, .int order, .list gains, .list limits], [.list r] =>
+    -- `PidBuilder::<f32>::build::<C>()`, C = f64 (w = 0: `as` widening of each f32 gain) or fixed point (w, q).
+    -- Compared PER GAIN: the three quantised gains / normalised limits are recovered from the coefficients
+    -- (g2 = b2, g1 = -(b1 + 2 b2), g0 = b0 + b1 + b2), so a small gain is not hidden behind a large coefficient.
+    let lim := limits.map fun v => let x := f32OfBits v; if x.isInf then none else some x
+    let g := gains.map f32OfBits
+    if w == 0 then
+      let (c0, c1, c2, c3, c4) := pidBuild float32Ops (fun x => x.toFloat) (0 : Float) (· + ·) (fun k x => Float.ofInt k * x)
+        (f32OfBits period) order.toNat g lim
+      let rec' := fun (b0 b1 b2 a1 a2 : Float) => [b0 + b1 + b2, -(b1 + 2 * b2), b2, 1 + a1 + a2, -(a1 + 2 * a2), a2]
+      let m := rec' c0 c1 c2 c3 c4
+      match r.map fOfBits with
+      | [e0, e1, e2, e3, e4] =>
+        let e := rec' e0 e1 e2 e3 e4
+        let sc := m.foldl (fun acc v => if v.abs > acc then v.abs else acc) 1e-300
+        let ok := (List.zip m e).zipIdx.all fun ((x, y), i) =>
+          (x.isNaN && y.isNaN) || x == y || (x - y).abs ≤ 4e-6 * (if i == 3 then 1 + x.abs else x.abs) + 1e-13 * sc
+        some (ok, showList ([c0, c1, c2, c3, c4].map fToBits))
+      | _ => some (false, "arity")
+    else
+      let (c0, c1, c2, c3, c4) := pidBuild float32Ops (quantizeInt32 w.toNat q.toNat) (0 : Int) (· + ·) (fun k x => k * x)
+        (f32OfBits period) order.toNat g lim
+      let one : Int := 2 ^ q.toNat
+      let rec' := fun (b0 b1 b2 a1 a2 : Int) => [b0 + b1 + b2, -(b1 + 2 * b2), b2, one + a1 + a2, -(a1 + 2 * a2), a2]
+      match r with
+      | [e0, e1, e2, e3, e4] =>
+        -- entry 3 is ONE - (l1 + l2), not a quantised value of its own: its error is relative to ONE
+        let ok := (List.zip (rec' c0 c1 c2 c3 c4) (rec' e0 e1 e2 e3 e4)).zipIdx.all fun ((x, y), i) =>
+          (x - y).natAbs ≤ 2 + (if i == 3 then one else x.natAbs) / 2 ^ 18
+        some (ok, showList [c0, c1, c2, c3, c4])
+      | _ => some (false, "arity")
   | _, _, _ => none
 
 structure Stats where
